@@ -246,6 +246,30 @@ def task(unit):
                 oc = check_request(gw, probe, cfg, V, st)
                 if oc[0] not in expected(probe, cfg)["status"]:
                     V("request-changes-behaviour-of-next-request|%s" % oc[0], "after %r the probe answered %r" % (a, oc), probe, cfg)
+            # histories with a change of the name server in between: every request resolves the name anew
+            if pairs:
+                warm = ("GET", "/pyro/http.a/m", "x=1", KEY, None)
+                uri_a = gw.ns.lookup("http.a")
+                uri_ab = gw.ns.lookup("http.ab")
+                for change in ("re-register", "remove"):
+                    st.executions += 2
+                    check_request(gw, warm, cfg, V, st)
+                    if change == "re-register":
+                        gw.ns.register("http.a", uri_ab)
+                    else:
+                        gw.ns.remove("http.a")
+                    for o in gw.objs.values():
+                        del o.log[:]
+                    res = gw.request(warm, cfg)
+                    inv = [(lab, e[0]) for lab, o in gw.objs.items() for e in o.log]
+                    exp0 = expected(warm, cfg)
+                    if exp0["invoke"] is not None:
+                        if change == "re-register" and (res.get("status") != 200 or inv != [("ab", "m")]):
+                            V("stale-name-resolution|re-registered-name", "after http.a was re-registered to another object the request gave status %s and invoked %r" % (res.get("status"), inv), warm, cfg)
+                        if change == "remove" and (res.get("status") == 200 or inv):
+                            V("stale-name-resolution|removed-name", "after http.a was removed the request gave status %s and invoked %r" % (res.get("status"), inv), warm, cfg)
+                    gw.ns.register("http.a", uri_a)
+                    check_request(gw, warm, cfg, V, st)
         if gw.w.net.pump_errors:
             V("daemon-loop-error", "%r" % gw.w.net.pump_errors[:2], (), ())
         st.samples.append({"config": list(cfgs[0]), "request": list(reqs[len(reqs) // 2]), "expected": {k: (sorted(v) if isinstance(v, set) else v) for k, v in expected(reqs[len(reqs) // 2], cfgs[0]).items()}})
